@@ -30,7 +30,7 @@ def run_case(case, rec, cid):
     desc = case["rec"]
     rnd = random.Random(case["seed"])
     r = recur.build(desc)
-    if recur.known_class(desc):
+    if recur.known_class(desc) or case.get("given"):
         # the iteration of this class is a recorded C12 finding: C13 speaks about what iteration yields, so the series is
         # handed to the specification as given and only the queries are judged
         pts, complete = recur.given(rec, cid, desc, r)
@@ -93,6 +93,11 @@ def run_case(case, rec, cid):
             whole = float(p.second_of_minute).is_integer() and p._second_of_minute is not None
             if whole and (complete or p < hi):
                 _q(rec, cid, "first_after", p, lambda p=p: r.get_first_after(p))
+    again = recur.take(r, len(pts))
+    for i, q in enumerate(again):
+        _q(rec, cid, "getitem", None, lambda q=q: q, i=i)          # second iteration, point by point, against the first
+    if len(again) != len(pts):
+        rec.ev("Raised", cid, what="second iteration of the same recurrence yields another number of points", cls="Reiteration", ve=False)
     if case.get("win") and desc.get("via") != "parse":
         _window(rec, cid, desc, r, pts, complete, forward, rnd)
     return True
@@ -191,7 +196,14 @@ def expand(job):
         if rnd.random() < 0.2 and desc["fmt"] == 3 and desc["a"]["prec"] == "hms" and recur.is_exact(desc["d"]) \
                 and not any(desc["d"].get(k_) for k_ in ("mi", "s")) and any(desc["d"].values()):
             desc["a"] = dict(desc["a"], dec=rnd.choice(["5", "75", "25"]))      # dyadic fraction: float arithmetic stays exact
-        yield {"mode": sp, "rec": desc, "seed": rnd.randrange(10 ** 9), "win": rnd.random() < 0.5}
+        case = {"mode": sp, "rec": desc, "seed": rnd.randrange(10 ** 9), "win": rnd.random() < 0.5}
+        if rnd.random() < 0.08 and desc["fmt"] == 3 and not recur.is_exact(desc["d"]) and desc["a"]["prec"] == "hms" and not desc["a"].get("dec"):
+            # a 24:00 start with a month/year interval: which of the two readings iteration follows is not fixed, so the series is
+            # taken as given; the queries and a second iteration must agree with it
+            case["rec"] = dict(desc, a=dict(desc["a"], hh=24, mi=0, ss=0))
+            case["given"] = True
+            case["win"] = False
+        yield case
 
 
 def jobs(tier, seed):
